@@ -128,6 +128,20 @@ impl ToplevelDefinition {
         }
     }
 
+    fn recurses_visiting<'a>(
+        &'a self,
+        name: &str,
+        tlds: &'a BTreeMap<String, ToplevelDefinition>,
+        visited: &mut Vec<&'a str>,
+    ) -> bool {
+        match self {
+            ToplevelDefinition::Type(ToplevelTypeDefinition { ty, .. }) => {
+                ty.recurses_visiting(name, tlds, visited)
+            }
+            _ => false, // TODO: Check recursion for values and information objects
+        }
+    }
+
     /// Traverses a top-level declaration to check for references to other top-level declarations
     /// in a constraint. An example would be the constraint of the `intercontinental` field in the
     /// following example.
@@ -643,27 +657,40 @@ impl ASN1Type {
         &self,
         name: &str,
         tlds: &BTreeMap<String, ToplevelDefinition>,
-        mut reference_graph: Vec<&str>,
+        reference_graph: Vec<&str>,
+    ) -> bool {
+        let mut visited: Vec<&str> = reference_graph;
+        self.recurses_visiting(name, tlds, &mut visited)
+    }
+
+    /// `visited` is shared by all branches of the traversal: a definition that was already searched
+    /// without finding `name` is not searched again (a copy per branch visits every path, which is
+    /// exponential in the nesting depth of types that mention a definition more than once).
+    fn recurses_visiting<'a>(
+        &'a self,
+        name: &str,
+        tlds: &'a BTreeMap<String, ToplevelDefinition>,
+        visited: &mut Vec<&'a str>,
     ) -> bool {
         match self {
             ASN1Type::ElsewhereDeclaredType(DeclarationElsewhere { identifier, .. }) => {
-                !reference_graph.contains(&identifier.as_str())
+                !visited.contains(&identifier.as_str())
                     && (identifier == name
                         || tlds.get(identifier).is_some_and(|tld| {
-                            reference_graph.push(identifier);
-                            tld.recurses(name, tlds, reference_graph)
+                            visited.push(identifier);
+                            tld.recurses_visiting(name, tlds, visited)
                         }))
             }
             ASN1Type::Choice(c) => c.options.iter().any(|opt|
                     // if an option is already marked recursive,
                     // it will be boxed and constitute a recursion
                     // boundary between `self` and the option type
-                    !opt.is_recursive && opt.ty.recurses(name, tlds, reference_graph.clone())),
+                    !opt.is_recursive && opt.ty.recurses_visiting(name, tlds, visited)),
             ASN1Type::Sequence(s) | ASN1Type::Set(s) => s.members.iter().any(|m|
                     // if a member is already marked recursive,
                     // it will be boxed and thus constitutes a recursion
                     // boundary between `self` and the member type
-                    !m.is_recursive && m.ty.recurses(name, tlds, reference_graph.clone())),
+                    !m.is_recursive && m.ty.recurses_visiting(name, tlds, visited)),
             _ => false,
         }
     }
